@@ -136,7 +136,10 @@ def exec_crash_case(case: dict) -> dict:
             rels.append({"tid": case["tid"], "k": k, "rel": "crash_equiv", "a": side(run), "b": ref,
                          "info": {"errors": errors, "crash_kind": snap["kind"], "crash_at": snap["label"],
                                   "crash_n": snap["n"], "lost_queue": snap["lost_queue"],
-                                  "double_exec": sorted(set(run.get("double_exec", [])) | set(out["runs"][-1].get("double_exec", [])))}})
+                                  "double_exec": sorted(set(run.get("double_exec", [])) | set(out["runs"][-1].get("double_exec", []))),
+                                  # the director died on the second completion of one step (F25)
+                                  "second_completion": any("Unexpected file hash update: cause=SUCCEEDED" in x and "state=BUILT" in x
+                                                           for x in errors)}})
             replay["crash_points"].append({"k": k, "n": snap["n"], "kind": snap["kind"], "at": snap["label"]})
     finally:
         world.destroy()
